@@ -78,6 +78,10 @@ type authScenario struct {
 	// Variant, when present, fixes the concretisation variant (ladder, ID shapes) so that a recorded call
 	// can be re-executed identically.
 	Variant *int `json:"variant,omitempty"`
+	// identity tags of the create / power-levels / join-rules events (C09): different tags give different event IDs
+	CTag int `json:"ctag,omitempty"`
+	PTag int `json:"ptag,omitempty"`
+	JTag int `json:"jtag,omitempty"`
 }
 
 // ladders realise ranks 0..4 as concrete levels; rank 1 is always 0 and rank 3 always 50.
@@ -201,8 +205,23 @@ type authIDs struct {
 	otherCreate string
 }
 
-func newAuthIDs(ver string) authIDs {
+func newAuthIDs(ver string, ctag int) authIDs {
 	a := authIDs{ver: ver}
+	if ctag > 1 {
+		// another create event: in versions with domainless room IDs that is another room
+		if isDomainless(ver) {
+			a.createID = eventID43(fmt.Sprintf("create%d", ctag))
+			a.otherCreate = a.createID
+			a.room = "!" + eventID43("create")[1:]
+			a.otherRoom = "!" + a.otherCreate[1:]
+		} else {
+			a.createID = fmt.Sprintf("$create%d:hs1", ctag)
+			a.otherCreate = "$othercreate:hs1"
+			a.room = "!room:hs1"
+			a.otherRoom = "!other:hs1"
+		}
+		return a
+	}
 	if isDomainless(ver) {
 		a.createID = eventID43("create")
 		a.otherCreate = eventID43("othercreate")
@@ -236,7 +255,7 @@ func concretise(sc *authScenario, variant int) (*concreteAuth, error) {
 		// ladder's top rank distinct from that level so that ranks stay faithful
 		lad[4] = 9007199254740990
 	}
-	ids := newAuthIDs(ver)
+	ids := newAuthIDs(ver, sc.CTag)
 	var events []gmsl.PDU
 	st := &sc.St
 	ev := &sc.Ev
@@ -308,18 +327,18 @@ func concretise(sc *authScenario, variant int) (*concreteAuth, error) {
 		return nil
 	}
 	if st.PL.Present {
-		if err := addState("pl", "m.room.power_levels", "", userIDs["creator"], plJSON(&st.PL.C, lad)); err != nil {
+		if err := addState(fmt.Sprintf("pl%d", sc.PTag), "m.room.power_levels", "", userIDs["creator"], plJSON(&st.PL.C, lad)); err != nil {
 			return nil, err
 		}
 	}
 	switch st.JR {
 	case "absent":
 	case "nokey":
-		if err := addState("jr", "m.room.join_rules", "", userIDs["creator"], map[string]interface{}{}); err != nil {
+		if err := addState(fmt.Sprintf("jr%d", sc.JTag), "m.room.join_rules", "", userIDs["creator"], map[string]interface{}{}); err != nil {
 			return nil, err
 		}
 	default:
-		if err := addState("jr", "m.room.join_rules", "", userIDs["creator"], map[string]interface{}{"join_rule": st.JR}); err != nil {
+		if err := addState(fmt.Sprintf("jr%d", sc.JTag), "m.room.join_rules", "", userIDs["creator"], map[string]interface{}{"join_rule": st.JR}); err != nil {
 			return nil, err
 		}
 	}
